@@ -141,10 +141,51 @@ def producers(ctx):
     return {'expr': expr, 'step': step, 'dep': dep}
 
 
-def handled_consts(f):
+def _module_dicts(mod):
+    """module-level NAME = {<str>: ...} (also annotated) -> {NAME: set of string keys}; tuple tables of
+    ((<str>, ...), rule) rows -> the strings of the first column"""
+    out = {}
+    for st in mod.tree.body:
+        tg, val = None, None
+        if isinstance(st, ast.Assign) and len(st.targets) == 1 and isinstance(st.targets[0], ast.Name):
+            tg, val = st.targets[0].id, st.value
+        elif isinstance(st, ast.AnnAssign) and isinstance(st.target, ast.Name) and st.value is not None:
+            tg, val = st.target.id, st.value
+        if tg is None:
+            continue
+        keys = set()
+        if isinstance(val, ast.Dict):
+            for k in val.keys:
+                if isinstance(k, ast.Constant) and isinstance(k.value, str):
+                    keys.add(k.value)
+                elif isinstance(k, ast.Tuple):
+                    keys |= {e.value for e in k.elts if isinstance(e, ast.Constant) and isinstance(e.value, str)}
+        elif isinstance(val, (ast.Tuple, ast.List)):
+            for row in val.elts:
+                if isinstance(row, (ast.Tuple, ast.List)) and row.elts:
+                    first = row.elts[0]
+                    for e in ([first] if isinstance(first, ast.Constant) else
+                              (first.elts if isinstance(first, (ast.Tuple, ast.List, ast.Set)) else [])):
+                        if isinstance(e, ast.Constant) and isinstance(e.value, str):
+                            keys.add(e.value)
+        if keys:
+            out[tg] = keys
+    return out
+
+
+def handled_consts(f, ctx=None):
     out = set()
     has_wild = False
-    for n in own_nodes(f.node):
+    funcs = [f]
+    if ctx is not None:
+        funcs += [g for g in ctx.an.reachable([f]).values() if g is not f and g.module is f.module]
+    tables = _module_dicts(f.module)
+    for g in funcs:
+        for n in ast.walk(g.node):
+            # table-driven dispatch: `x.type in TABLE`, `TABLE[x.type]`, `TABLE.get(x.type)`, `for types, rule in TABLE`
+            if isinstance(n, ast.Name) and isinstance(n.ctx, ast.Load) and n.id in tables:
+                out |= tables[n.id]
+    for n in [x for g in funcs for x in (own_nodes(g.node) if g is f else ast.walk(g.node))]:
         if isinstance(n, ast.Match):
             for c in n.cases:
                 for sub in ast.walk(c.pattern):
@@ -179,7 +220,7 @@ def run(ctx) -> list[Inst]:
     insts = []
     for (fname, table, props, subset) in CONSUMERS:
         f = prog.func(fname)
-        handled, wild = handled_consts(f)
+        handled, wild = handled_consts(f, ctx)
         need = prod[table] if subset is None else (prod[table] & subset)
         for c in sorted(need):
             construct = f"handler for {table} constant '{c}'"
